@@ -245,5 +245,23 @@ for s, chns, f in groups:
         bad.append(('open raised', repr(e)))
 print(bad)
 if bad: reproduced(str(bad))
+# the witness has only a few windows; the same situation with several hundred windows (a long recording cut into 2 s windows has that many)
+ns2, window2 = 7805, 600
+d2 = pathlib.Path(tempfile.mkdtemp()) / 's' / 'probe00'; d2.mkdir(parents=True)
+data2 = (rs.normal(size=(ns2, nc)) * 300).astype(np.int16); data2[:, -1] = rs.integers(0, 65535, ns2).astype(np.uint16).astype(np.int16)
+if np21:
+    txt2 = sglx.imec_meta_text('NP2.1', [(0, i % 2, i // 2) for i in range(n)], ns=format(ns2 / 30000.0, '.12f'), fs_hz='30000', extra=['fileSHA1=ABCDEF', f'fileSizeBytes={{ns2 * nc * 2}}'])
+else:
+    txt2 = np2env.np24_meta_text(n, shank_of, format(ns2 / 30000.0, '.12f'), extra=['fileSHA1=ABCDEF', f'fileSizeBytes={{ns2 * nc * 2}}'])
+(d2 / 'x.imec0.ap.meta').write_text(txt2); data2.tofile(d2 / 'x.imec0.ap.bin')
+conv2 = neuropixel.NP2Converter(d2 / 'x.imec0.ap.bin', post_check=False, compress=False)
+conv2.init_params(nwindow=window2, extra='' if np21 else '_t')
+conv2.process()
+nrows2 = -(-ns2 // 12)
+groups2 = [(0, list(range(nc)), d2 / 'x.imec0.lf.bin')] if np21 else [(s, [i for i, x in enumerate(shank_of) if x == s] + [n], d2.parent / f'probe00{{chr(97 + s)}}_t' / 'x.imec0.lf.bin') for s in sorted(set(shank_of))]
+for s, chns, f in groups2:
+    out2 = np.fromfile(f, dtype=np.int16)
+    if out2.size != nrows2 * len(chns): reproduced(f'with {{len(list(neuropixel.WindowGenerator(ns2, window2, 576).firstlast))}} windows the LF file of shank {{s}} holds {{out2.size / len(chns)}} samples instead of {{nrows2}}')
+    if not np.array_equal(out2.reshape(nrows2, len(chns))[:, -1], data2[::12, -1]): reproduced('with several hundred windows the LF sync is not every 12th AP sync word')
 not_reproduced()
 """
